@@ -40,7 +40,9 @@ def build_tag(base):
 
 
 def rand_text(r, heavy, extra=()):
-    words = [b"hello", b"world", b"ab", b" ", b"xyz", b"he", b"w", b"aa", b"b", b"\x00", b"hello world", b"xyyz"] + list(extra)
+    # "ABxCDxCX" etc.: several candidates for the jump of { 41 42 [0-4] 43 44 }, the farthest one rejected later, a nearer one matching
+    words = [b"hello", b"world", b"ab", b" ", b"xyz", b"he", b"w", b"aa", b"b", b"\x00", b"hello world", b"xyyz",
+             b"ABxCDxCX", b"ABCxCDCC", b"ABxxCxCD"] + list(extra)
     t = b"".join(r.choice(words) for _ in range(r.randint(2, 12)))
     if heavy:
         t += b"a" * r.randint(MAXM + 2, MAXM + 6)
@@ -143,6 +145,9 @@ def gen_ruleset(r, pool, bomb=False, pad=None, chains=False):
         s_r = sid(); add(r.choice([("str", s_r), ("cnt", s_r, 2)]), strings=[sl.Rx("xy+z")])
     if r.random() < 0.6:
         s_r = sid(); add(("str", s_r), strings=[sl.Rx("w[a-ce-z]{2,4}d")])
+    # hex string with a jump: yr_re_fast_exec and the scanner's pool of position nodes
+    if r.random() < 0.7:
+        s_r = sid(); add(r.choice([("str", s_r), ("cnt", s_r, 1), ("len", s_r, 1, 5)]), strings=[sl.HexJump(b"AB", 0, 4, b"CD")])
     if bomb:
         s_r = sid(); add(("str", s_r), strings=[sl.Bomb()])
     if chains:
